@@ -3,6 +3,9 @@ package checks
 import (
 	"time"
 
+	"github.com/ProtonMail/gluon/db"
+	"verif/scen/mbox"
+
 	"verif/engine/explore"
 )
 
@@ -34,7 +37,7 @@ func C02(tier string) int {
 	if tier == "thorough" {
 		d, du, budget = 6, 4, 25*time.Minute
 	}
-	return RunE1(E1Spec{
+	code := RunE1(E1Spec{
 		Prop: "C02", Level: "model_checking", Budget: budget,
 		Families: c02Families(d, du),
 		Assume: []string{
@@ -43,6 +46,17 @@ func C02(tier string) int {
 			"\\Recent ignored",
 		},
 	})
+	L := db.ChunkLimit
+	var cases []any
+	for _, n := range []int{2, L, L + 1, 2*L + 1} {
+		cases = append(cases, mbox.GridCase{N: n, Op: "conn-arrival"})
+	}
+	c2 := RunEnumMerge("C02", "arrival_grid", EnumSpec{Prop: "C02", Level: "model_checking", Call: "c03grid", Cases: cases, Chunk: 1,
+		Rule: "an observer with N messages selected, a connector batch of N more (N on both sides of the statement-batching limit), NOOP: the announced count and the observer's rows must equal the mailbox"})
+	if c2 > code {
+		code = c2
+	}
+	return code
 }
 
 func init() {
